@@ -3,6 +3,8 @@ package gosym
 // SMT-LIB2 pipe to a long-lived solver process (z3 -in). One per worker.
 
 import (
+	"os"
+	"sync/atomic"
 	"bufio"
 	"fmt"
 	"io"
@@ -50,6 +52,11 @@ type Solver struct {
 
 func NewSolver(name string, timeoutMs int) (*Solver, error) {
 	s := &Solver{name: name, timeout: timeoutMs}
+	if lf := os.Getenv("GOSYM_SMTLOG"); lf != "" && name == "z3" {
+		if f, err := os.Create(fmt.Sprintf("%s.%d", lf, logSeq.Add(1))); err == nil {
+			s.logw = f
+		}
+	}
 	switch name {
 	case "z3", "z3-new":
 		s.argv = []string{name, "-in", "-smt2"}
@@ -237,6 +244,8 @@ func (s *Solver) readResult() (Result, bool) {
 		}
 	}
 }
+
+var logSeq atomic.Int32
 
 // LastSolverError keeps the most recent error line for diagnostics.
 var LastSolverError string
